@@ -8,6 +8,7 @@ package main
 import (
 	"bytes"
 	"fmt"
+	"io"
 	"sort"
 	"strings"
 
@@ -25,9 +26,21 @@ type implResult struct {
 	pv       any
 }
 
+var callNo int
+
 func callRead(r *mon.Run, id string, x []byte) implResult {
 	var res implResult
-	res.panicked, res.pv = r.Call(id, x, func() { res.b, res.err = bundle.Read(bytes.NewReader(x)) })
+	// the memory the input is read from is the caller's: it is overwritten as soon as Read has returned
+	mem := append([]byte{}, x...)
+	var src io.Reader = bytes.NewReader(mem)
+	callNo++
+	if callNo%3 == 0 {
+		src = bytes.NewBuffer(mem)
+	}
+	res.panicked, res.pv = r.Call(id, x, func() { res.b, res.err = bundle.Read(src) })
+	for i := range mem {
+		mem[i] = 0xCC
+	}
 	return res
 }
 
